@@ -71,7 +71,7 @@ TINY = [2.0 ** -30, -(2.0 ** -30), 3 * 2.0 ** -40, -(2.0 ** -27), 2.0 ** -60, 2.
 def array_spec(draw, size, dtype, fuzzy=False, pool=None, mask_kind=None, payload=True, wide=False, tiny=False, fuzzy_wild=False, pool_only=False, big_ints=False):
     if fuzzy and fuzzy_wild:
         # a result declared fuzzy by whatever produced it (a reader, a plug-in command) need not respect the range
-        base = st.one_of(lattice_floats(-1, 1), lattice_floats(-4, 4), st.sampled_from([1e6, -250.0]))
+        base = st.one_of(lattice_floats(-1, 1), lattice_floats(-4, 4), st.sampled_from([1e6, -250.0, 1e20, 999999.0]))
     elif fuzzy:
         base = lattice_floats(-1, 1)
     elif dtype == "int64" and big_ints:
@@ -142,7 +142,9 @@ def params_for(draw, cmd, n, pool, wild=False):
     """Scalar parameters of `cmd` from its documented domain.  `pool`: a few data values, so thresholds,
     categories and control points coincide with cells.  wild=True draws out-of-fuzzy-range values (C04)."""
     num = lattice_numbers() if not wild else st.one_of(
-        lattice_numbers(), st.floats(-1e6, 1e6, allow_nan=False, width=32).map(float), st.integers(-1000, 1000))
+        lattice_numbers(), st.floats(-1e6, 1e6, allow_nan=False, width=32).map(float), st.integers(-1000, 1000),
+        # magnitudes that double as "no data" sentinels: numpy's default fill values, the usual -9999
+        st.sampled_from([1e20, -1e20, 999999, -9999, 1e300]))
     near = st.one_of(st.sampled_from(pool), num) if pool else num
     p = {}
     if cmd in ("WeightedSum", "WeightedMean", "FuzzyWeightedUnion"):
@@ -259,7 +261,11 @@ def unit_case(draw, cmds, max_rank=1, dtypes=("float64", "int64"), wild=False, m
     if close and not fuzzy and draw(st.integers(0, 5)) == 0:
         close_used = True  # such values go with double precision only: single precision cannot tell them apart reliably
         # distinct values that a tolerant comparison (numpy.isclose: rtol 1e-5, atol 1e-8) would take for equal
-        pool = draw(st.sampled_from([[250001.0, 250002.0, 250003.0], [1.0, 1.000001, 0.999999], [1048576.0, 1048577.0, 1048575.0, 2.0]]))
+        pools = [[250001.0, 250002.0, 250003.0], [1.0, 1.000001, 0.999999], [1048576.0, 1048577.0, 1048575.0, 2.0]]
+        if cmd in ("CvtToBinary", "NormalizeCat", "CvtToFuzzyCat", "Copy"):
+            # commands that only compare or look up their cells are exact on 64-bit integers beyond 2^53 as well
+            pools.append([9007199254740993, 9007199254740995, 9007199254740997])
+        pool = draw(st.sampled_from(pools))
     arrays = []
     first_dtype = None
     for i in range(n):
@@ -269,7 +275,7 @@ def unit_case(draw, cmds, max_rank=1, dtypes=("float64", "int64"), wild=False, m
         if same_dtype and first_dtype:
             dtype = first_dtype
         first_dtype = first_dtype or dtype
-        use_pool = [int(x) for x in pool] if dtype.startswith("int") else pool
+        use_pool = [int(x) for x in pool] if dtype.startswith("int") else [float(x) for x in pool]
         spec = draw(array_spec(size, dtype, fuzzy=fuzzy, pool=use_pool, mask_kind=mask_kind, wide=wide and not fuzzy, tiny=tiny, fuzzy_wild=fuzzy_wild,
                                pool_only=close_used and draw(st.booleans()), big_ints=tiny and i < 2))
         if two_distinct and size >= 2:
